@@ -851,7 +851,7 @@ func bxvRoundTripCases(fails *[]bxvFailure, stats map[string]int, samples *[]str
 	}
 	stats["distinct_texts"] = len(seen)
 	// literal fidelity: X == <quoted s> is true of X = s
-	strs := []string{"", "a", "two words", "é", "日本語", "\"quoted\"", "back\\slash", "/usr/bin", "/a~1b", "/a~0b/c", "~", "line\nbreak", "tab\t", "\x00", "`tick`", "a`b\"c", "{}", "not", "1", "-1.5", "0x10", "true", " lead", "trail ", "\u2028", "\U0001F600", "\ufffd", "a\ufffdb", "\ufffd\ufffd", "\ufeff", "x\u0080y", "\u07ff", "\uffff", "\U0010ffff", "ends\\", "\\\\", "q\"\\"}
+	strs := []string{"", "a", "two words", "é", "日本語", "\"quoted\"", "back\\slash", "/usr/bin", "/a~1b", "/a~0b/c", "~", "line\nbreak", "tab\t", "\x00", "`tick`", "a`b\"c", "{}", "not", "1", "-1.5", "0x10", "true", " lead", "trail ", "\u2028", "\U0001F600", "\ufffd", "a\ufffdb", "\ufffd\ufffd", "\ufeff", "x\u0080y", "\u07ff", "\uffff", "\U0010ffff", "ends\\", "\\\\", "q\"\\", "a\u00a0b", "\u00a0", "\u2007x", "\u202f", "x\u3000", "\u1680", "\u2003\u205f", "\u0085", "\v\f"}
 	for i := 0; i < 200; i++ {
 		var sb strings.Builder
 		x := uint32(i*2654435761 + 12345)
